@@ -26,6 +26,7 @@ var commands = map[string]func([]string){
 	"order":     cmdOrder,
 	"sig":       cmdSig,
 	"pairs":     cmdPairs,
+	"mutate":    cmdMutate,
 }
 
 func main() {
